@@ -58,6 +58,10 @@ class Calls:
                 return VOpt(z3.Bool(self.path.fresh_name("$exc." + name + "?")),
                             VInt(z3.Int(self.path.fresh_name("$exc." + name))))
             return VOpaque("exc." + name)
+        if isinstance(base, VExt):
+            h = self.engine.ext_attrs.get((base.kind.split(".")[-1], name))
+            if h is not None:
+                return h(self, base, node, fr)
         if isinstance(base, (VStr, VList, VDict, VSet, VTuple, VStream, VExt, VInt, VBuiltin)):
             if isinstance(base, VBuiltin) and base.name in self.EXTERNAL_CALLABLES:
                 return self.external_value(f"{base.name}.{name}")
@@ -385,7 +389,7 @@ class Calls:
             key = f"{fname}:precondition:{fi.name}#{fi.requires.index((lam, desc))}@{self.rel(fr, line)}c{getattr(node, 'col_offset', 0)}"
             o = Obligation(key, "precondition", fname, line,
                            f"@require of {fi.qualname}: {ast.unparse(lam.body)[:100]}")
-            self.path.oblige(c, o)
+            self.path.oblige(self.goal_term(c), o)
 
     def note_assumption(self, text: str) -> None:
         if text not in self.path.assumptions_used:
@@ -431,7 +435,7 @@ class Calls:
                 fname = self.func_label(fr)
                 o = Obligation(f"{fname}:precondition:{fi.name}:{nm}@{self.rel(fr, line)}", "precondition", fname, line,
                                f"requires of {fi.qualname}: {ex}")
-                self.path.oblige(goal, o)
+                self.path.oblige(self.goal_term(goal), o)
         # frame: havoc what the callee may modify
         if contract is not None:
             for pname in contract.modifies:
@@ -462,13 +466,13 @@ class Calls:
             if not ok:
                 continue
             try:
-                self.path.assume(self.truthy(self.ev(lam.body, lfr)))
+                self.assume_term(self.truthy(self.ev(lam.body, lfr)))
             except Unsupported:
                 continue
         if contract is not None:
             for nm, ex in contract.ensures:
                 try:
-                    self.path.assume(self.truthy(self.eval_spec(ex, cfr)))
+                    self.assume_term(self.truthy(self.eval_spec(ex, cfr)))
                 except Unsupported as e:
                     self.note_assumption(f"ensures {nm} of {fi.qualname} not usable at call site: {e}")
         self.engine.note_function(fi, "by-contract")
